@@ -130,7 +130,8 @@ def session : Handler := fun j => do
   let calls ← callsJ.mapM fun cj => do
     let over ← targetsOf (← field cj "over")
     let picks ← natListList (← field cj "picks")
-    pure ({ over := over, trials := picks } : Call)
+    pure (({ over := over, trials := picks } : Call),
+          (match cj.getObjVal? "k" with | .ok (.num n) => n.mantissa.toNat | _ => 0))
   match Costs.init cons sd with
   | none => pure (jObj [("error", jStr "init")])
   | some c0 =>
@@ -142,10 +143,10 @@ def session : Handler := fun j => do
         match trial forb tg p cache with
         | (cache', .ok k c) => trialsOf tg rest cache' (acc ++ [jRes (.ok k c)])
         | (_, r) => acc ++ [jRes r]
-    let rec go (cs : List Call) (cache : Cache) (acc : List Json) : List Json :=
+    let rec go (cs : List (Call × Nat)) (cache : Cache) (acc : List Json) : List Json :=
       match cs with
       | [] => acc
-      | cl :: rest =>
+      | (cl, kk) :: rest =>
         let tg := cl.over.orElse tg0
         let cache' := callCache forb tg0 cl cache
         let aborted := (searchLoop forb tg cl.trials cache).2.isSome
@@ -159,7 +160,12 @@ def session : Handler := fun j => do
                          ("cache", jArr (cache'.map fun (k, c) =>
                             jObj [("key", jNats k), ("cost", jCosts c false),
                                   ("valid", jBool (valid tg c))])),
-                         ("best", b), ("min_score", minScore)]
+                         ("best", b), ("min_score", minScore),
+                         -- `best(k=kk)` on the cache after this call, with the targets in force
+                         ("bestk", jArr ((bestK tg cache' kk).map fun (k, c) =>
+                            let sc := scorer tg c
+                            jObj [("key", jNats k), ("cost", jCosts c false),
+                                  ("score", Json.arr #[jInt sc.1, jInt sc.2.1, jInt sc.2.2])]))]
         go rest cache' (acc ++ [out])
     pure (jObj [("forbidden", jNats (sortNats forb)), ("calls", jArr (go calls [([], c0)] []))])
 
